@@ -18,6 +18,7 @@
 #include <signal.h>
 #include <inttypes.h>
 #include <time.h>
+#include <sys/personality.h>
 
 #ifndef BN_DIGIT_BIT_CNT
 #error "BN_DIGIT_BIT_CNT must be given"
@@ -161,7 +162,8 @@ static void *c01_memset(void *d, int c, size_t n) { if (n > WILD) wild_size("mem
  * too.  Before every library call the stack region below the caller is painted with the current stale pattern, so a
  * read of an uninitialised temporary digit behaves like a read of stale operand storage: deterministic, and different
  * between the 0xA5 and the 0x00 run.  This needs the real stack: ASan's fake stack (detect_stack_use_after_return,
- * switched on in vh.h) is switched off by re-executing with ASAN_OPTIONS once (also under --only replays). */
+ * switched on in vh.h) is switched off by re-executing with ASAN_OPTIONS once (also under --only replays); the same
+ * re-execution switches address space randomisation off. */
 #define PAINT_BYTES (72 * sizeof(bn_t))
 static __attribute__((noinline)) void
 paint_stack(uint8_t fill) {
@@ -178,6 +180,7 @@ reexec_without_fake_stack(char **argv) {
 	snprintf(buf, sizeof(buf), "%s%sdetect_stack_use_after_return=0", cur ? cur : "", cur ? ":" : "");
 	setenv("ASAN_OPTIONS", buf, 1);
 	setenv("C01_REEXEC", "1", 1);
+	(void)personality(ADDR_NO_RANDOMIZE);	/* same addresses in every run: even garbage that is a pointer is reproducible */
 	execv("/proc/self/exe", argv);
 	perror("execv");	/* fall through: run anyway */
 #else
